@@ -179,7 +179,7 @@ def main():
                     save(state)
         save(state)
     elif cmd == 'check':
-        todo = [m for m in state.values() if m['module'] in modules and m.get('tests') == 'survived' and 'result' not in m]
+        todo = [m for m in state.values() if m['module'] in modules and m.get('tests') == 'survived' and 'result' not in m and not m.get('stale')]
         print('stage 2: %d survivors' % len(todo), flush=True)
         with cf.ThreadPoolExecutor(jobs) as ex:
             futs = {ex.submit(stage_check, m): m for m in todo}
@@ -192,6 +192,8 @@ def main():
     elif cmd == 'report':
         by = {}
         for m in state.values():
+            if m.get('stale'):
+                continue            # (the line was changed by a later repair of the library; the mutant no longer exists)
             r = by.setdefault(m['module'], {'mutants': 0, 'killed-by-tests': 0, 'does-not-import': 0, 'survived': 0, 'detected': 0, 'missed': 0, 'equivalent': 0, 'pending': 0})
             r['mutants'] += 1
             if 'tests' not in m:
